@@ -41,7 +41,7 @@ def worktree(slot):
 
 
 def one(args):
-    sid, slot, scale, workers = args
+    sid, slot, scale, workers, own = args
     wt = worktree(slot)
     patch = os.path.join(VERIF, "seeded", sid, "patch.diff")
     out = {"id": sid}
@@ -53,7 +53,7 @@ def one(args):
             out["error"] = "patch does not apply to the current tree"
             return out
         res = {}
-        for c in ALL:
+        for c in ([sid[:3]] if own else ALL):
             t0 = time.time()
             env = {"BBVERIF_REPO": wt, "PYTHONPATH": VERIF, "BBVERIF_BUDGET_SCALE": str(scale), "BBVERIF_EVIDENCE_DIR": "/tmp/bbv_xm_ev/%d" % slot,
                    "BBVERIF_REPLAY_DIR": "/tmp/bbv_xm_ev/%d/replays" % slot, "VERIF_SEED": "0"}
@@ -82,7 +82,7 @@ def cmd_run(a):
         while pending or futs:
             while pending and slots:
                 s = slots.pop()
-                futs[ex.submit(one, (pending.pop(0), s, a.scale, a.workers))] = s
+                futs[ex.submit(one, (pending.pop(0), s, a.scale, a.workers, a.own))] = s
             fu = next(concurrent.futures.as_completed(list(futs)))
             slots.append(futs.pop(fu))
             try:
@@ -122,6 +122,7 @@ def main():
     r.add_argument("--workers", type=int, default=2)
     r.add_argument("--scale", type=float, default=0.2)
     r.add_argument("--ids")
+    r.add_argument("--own", action="store_true", help="only the check of the property the change was written against")
     t = sub.add_parser("table")
     t.add_argument("out")
     a = ap.parse_args()
